@@ -10,7 +10,7 @@ B = lambda op, l, r: ("bin", op, l, r)
 NIN = 3
 
 OPT = ("def", "opt", [("sel", "int"), ("x", "int")], "int?", [("if", [(B("==", V("sel"), I(1)), [("return", ("nil",))])], None), ("return", V("x"))])
-KINDS = ["assert", "div", "get", "index", "remove"]
+KINDS = ["assert", "div", "get", "index", "remove", "assert_inline"]
 ORDERS = [("fn", "loop", "method", "closure", "rec", "else", "fn"), ("method", "fn", "rec", "loop", "fn", "closure", "else"),
           ("closure", "else", "fn", "rec", "method", "loop", "fn"),
           # the two innermost levels live in an imported module (exported functions; the module has asserts of its own)
@@ -21,6 +21,9 @@ LIB = "lib17"
 def fail_stmts(kind):
     if kind == "assert":
         return [("assert", B("!=", V("b"), I(0)))]
+    if kind == "assert_inline":
+        # the assert shares its source line with a statement that prints multi-byte text: the column counts characters
+        return [("sameline", [("print", ("str", "→ é 世")), ("assert", B("!=", V("b"), I(0)))])]
     if kind == "div":
         return [("print", B("/", I(10), V("b")))]
     if kind == "get":
@@ -51,7 +54,8 @@ def program(kind, order, _unused=None):
     prog = [("assign", "in0", ("in", 0)), ("assign", "in1", ("in", 1)), ("assign", "in2", ("in", 2)), OPT, ("assign", "salt", I(1))]
     # levels are defined innermost first so that each can name the next
     nxt = B("+", V("a"), V("b"))
-    lib = [("print", ("str", "lib:init")), OPT]
+    lib = [("print", ("str", "lib:init")), OPT, ("assign", "li", ("in", 0)), ("assign", "lj", ("in", 1)),
+           ("if", [(B("==", V("li"), I(8)), _rename_to(fail_stmts(kind), "li", "lj"))], None)]
     for k in range(len(styles), 0, -1):
         st = styles[k - 1]
         name = "g%d" % k
@@ -90,6 +94,18 @@ def program(kind, order, _unused=None):
     return prog
 
 
+def _rename_to(node, a, b):
+    if isinstance(node, tuple):
+        if len(node) == 2 and node[0] == "var" and node[1] in ("a", "b"):
+            return ("var", {"a": a, "b": b}[node[1]])
+        if node and node[0] == "index" and node[2] == "b":
+            return ("index", _rename_to(node[1], a, b), b)
+        return tuple(_rename_to(x, a, b) for x in node)
+    if isinstance(node, list):
+        return [_rename_to(x, a, b) for x in node]
+    return node
+
+
 def _rename(node):
     """module level: a -> in0, b -> in1"""
     if isinstance(node, tuple):
@@ -113,6 +129,8 @@ def describe(item):
 
 
 def level_in_module(order, level):
+    if level == 8:
+        return "mod" in ORDERS[order]           # the module's own top-level code, while it is being imported
     return 1 <= level <= 7 and ORDERS[order][level - 1] == "mod"
 
 
@@ -125,12 +143,14 @@ def assert_position(src, level):
         t = l.strip()
         if level == 0 and t == 'print "depth0"':
             start = i
+        elif level == 8 and t.startswith("lj = "):
+            start = i
         elif level > 0 and (t.startswith("g%d = fn(" % level) or t.startswith("class K%d " % level) or t.startswith("export g%d:" % level)):
             start = i
     if start is None:
         return None
     for i in range(start, len(lines)):
         c = lines[i].find("assert ")
-        if c >= 0 and lines[i].strip().startswith("assert "):
-            return (i + 1, c + 1)
+        if c >= 0 and (lines[i].strip().startswith("assert ") or lines[i].strip().startswith("print ")):
+            return (i + 1, c + 1)           # columns count characters
     return None
